@@ -39,6 +39,9 @@ size_t ZSTD_CCtx_loadDictionary(ZSTD_CCtx *c, const void *dict, size_t n) {
 ZSTD_DDict *ZSTD_createDDict(const void *dict, size_t n) {
     __CPROVER_assert(n == 0 || __CPROVER_r_ok(dict, n), "ENV/zstd: dictionary readable for the stated size");
     if(zs_mode == 1 && nondet_bool()) return NULL;      /* real library rejects malformed dictionaries */
+#ifdef ZS_DDICT_FAIL
+    return NULL;                                        /* instance option: the dictionary is rejected */
+#endif
     ZSTD_DDict *d = malloc(sizeof *d); __CPROVER_assume(d != NULL);
     d->b0 = n ? *(const unsigned char *)dict : 0;
     return d;
@@ -50,7 +53,12 @@ size_t ZSTD_compressBound(size_t n) { return n > ZS_ERR(200) ? ZS_ERR(72) : n + 
 unsigned ZSTD_isError(size_t code) { return code > ZS_ERR(120); }
 const char *ZSTD_getErrorName(size_t code) { (void)code; return "zstd error"; }
 int ZSTD_maxCLevel(void) { return 22; }
+#ifdef ZS_SIMPLE_DICT
+/* concrete-shape harnesses: the marker says only whether a dictionary was in use (its content is symbolic there) */
+static unsigned char marker(int dict_on, unsigned char b0) { (void)b0; return dict_on ? 0x26 : 0x25; }
+#else
 static unsigned char marker(int dict_on, unsigned char b0) { return dict_on ? (unsigned char)(0x80 | (b0 & 0x7f)) : 0x25; }
+#endif
 size_t ZSTD_compress2(ZSTD_CCtx *c, void *dst, size_t cap, const void *src, size_t n) {
     __CPROVER_assert(c != NULL, "ENV/zstd: compress2 on a live context");
     __CPROVER_assert(n == 0 || __CPROVER_r_ok(src, n), "ENV/zstd: compress2 source readable");
@@ -83,7 +91,12 @@ static size_t dec(void *dst, size_t cap, const void *src, size_t n, int dict_on,
         __CPROVER_assert(r <= ZS_MAX, "ENVBOUND/zstd model: chunk within model bound");
         return r;
     }
+#ifdef ZS_SIMPLE_DICT
+    /* a frame coded without a dictionary also decodes when a dictionary is supplied (zstd ignores it: no dictID in such frames) */
+    if(n < 1 || !(s[0] == marker(dict_on, b0) || (dict_on && s[0] == marker(0, 0)))) return ZS_ERR(20);
+#else
     if(n < 1 || s[0] != marker(dict_on, b0)) return ZS_ERR(20);
+#endif
     if(cap < n - 1) return ZS_ERR(70);
     __CPROVER_assert(n - 1 <= ZS_MAX, "ENVBOUND/zstd model: chunk within model bound");
     for(size_t i = 0; i < ZS_MAX; i++) if(i + 1 < n) d[i] = s[1 + i];
